@@ -35,8 +35,6 @@ Proof. vm_compute. reflexivity. Qed.
 Example ex_double_far : spec_resolve false ex_msg 1 2 = Some (TgtList 0 2 7 2 1 1)
                         /\ spec_resolve true ex_msg 1 2 = Some (TgtList 0 2 7 2 1 1).
 Proof. vm_compute. split; reflexivity. Qed.
-Example ex_no_deviation : dfar_zero_pad ex_msg 0 0 = false /\ dfar_zero_pad ex_msg 1 2 = false.
-Proof. vm_compute. split; reflexivity. Qed.
 
 (* the specification's tree, and the walker's through the model of the Go accessors *)
 Example ex_spec_tree : spec_decode_root false 6 64 8 ex_msg = ex_tree /\ spec_cost false 6 64 8 ex_msg 0 0 = 59.
@@ -82,10 +80,11 @@ Example upgrade_prefix_refuted :
     = Ok (ptr_of_target 62 0 (TgtStruct 0 4 1 0)).
 Proof. vm_compute. repeat split; reflexivity. Qed.
 
-(* ------------------------------------------------------------------ the remaining deviation *)
+(* ------------------------------------------------------------------ as found: double-far to an empty struct *)
 (* seg 0: double-far pointer to the pad at seg 1 word 0; seg 1: far pointer to seg 0 word 0,
    tag word 0 (= a struct with no data and no pointers).  The specification: an empty struct
-   at word 0 of segment 0.  readPtr: the null pointer. *)
+   at word 0 of segment 0.  The code as found ([strict] = false): the null pointer; the
+   repaired code: the empty struct. *)
 Definition ex_dfar0 : list (list Z) :=
   [[6; 0; 0; 0; 1; 0; 0; 0];
    [2; 0; 0; 0; 0; 0; 0; 0; 0; 0; 0; 0; 0; 0; 0; 0]].
@@ -93,5 +92,6 @@ Definition ex_dfar0 : list (list Z) :=
 Example dfar_zero_struct_refuted :
   spec_resolve false ex_dfar0 0 0 = Some (TgtStruct 0 0 0 0) /\
   dfar_zero_pad ex_dfar0 0 0 = true /\
-  root ex_cfg ex_dfar0 1000 = (Ok nullPtr, 1000).
+  root (mkCfg 1000000 64 false true) ex_dfar0 1000 = (Ok nullPtr, 1000) /\
+  root ex_cfg ex_dfar0 1000 = (Ok (ptr_of_target 63 0 (TgtStruct 0 0 0 0)), 1000).
 Proof. vm_compute. repeat split; reflexivity. Qed.
